@@ -20,6 +20,8 @@ mv -f build-coq.log build/coq.log
 # 3. native kernels of /repo's working tree through the minipb stand-in
 CORE=$(/venv/bin/python native/build_core.py)
 echo "native core: $CORE"
+ASAN=$(/venv/bin/python native/build_core.py --asan)
+echo "native core (ASan+UBSan, C17): $ASAN"
 # 4. plumbing self-check: the rebuilt kernels are the ones imported under the hook
 PYAMG_VERIF_CORE_DIR=$CORE /venv/bin/python -c "
 import pyamg.amg_core.relaxation as r, pyamg
